@@ -515,10 +515,10 @@ Proof.
       rewrite nth_error_app2 by lia. destruct (Nat.eqb_spec o (length (ops s))) as [->|]; [now rewrite Nat.sub_diag|].
       destruct (o - length (ops s))%nat as [|[|m]] eqn:E; [lia|reflexivity|reflexivity]. }
     constructor; try assumption; try apply A.
-    + intros o c H E. rewrite G in H. destruct (Nat.ltb o (length (ops s))).
+    + intros o c H E. change (getop (s <| last := mid |> <| inuse ::= cons mid |> <| ops ::= fun l => l ++ [oerr] |>) o = Some c) in H. rewrite G in H. destruct (Nat.ltb o (length (ops s))).
       * destruct (a_reply s A o c H E) as [R _]. congruence.
       * destruct (Nat.eqb o (length (ops s))); [|discriminate]. injection H as <-. discriminate E.
-    + intros o c H E. rewrite G in H. destruct (Nat.ltb o (length (ops s))).
+    + intros o c H E. change (getop (s <| last := mid |> <| inuse ::= cons mid |> <| ops ::= fun l => l ++ [oerr] |>) o = Some c) in H. rewrite G in H. destruct (Nat.ltb o (length (ops s))).
       * destruct (a_chan s A o c H E) as [R _]. congruence.
       * destruct (Nat.eqb o (length (ops s))); [|discriminate]. injection H as <-. discriminate E.
 Qed.
@@ -602,7 +602,7 @@ Proof.
   destruct (o_kind c) eqn:Ek.
   - (* Single *)
     destruct (fix16 (fx s) && negb (waiting c)).
-    + apply acctx_acct. apply (acctx_drop_xc None _ o (drop_reply c)).
+    + apply acctx_acct. apply (acctx_irrelevant _ _ (updop o drop_reply s0)); [|reflexivity..]. apply (acctx_drop_xc None _ o (drop_reply c)).
       * apply acctx_settle; [exact X0|apply settles_drop_reply].
       * now apply getop_updop_same.
       * right. unfold is_search. destruct (kpres_drop_reply c) as [-> _]. now rewrite Ek.
@@ -635,7 +635,7 @@ Proof.
       - rewrite M1. reflexivity. }
     assert (X3 : acctx None None (updop o (fill_reply None) R1)) by (apply acctx_settle; [exact X2|apply settles_fill]).
     destruct (fix16 (fx s) && negb (waiting c)); [|now apply acctx_acct].
-    apply acctx_acct.
+    apply acctx_acct. match goal with |- acctx _ _ (set inuse _ ?x) => apply (acctx_irrelevant _ _ x); [|reflexivity..] end.
     assert (Ea : alookup (o_mid c) (smap (updop o (fill_reply None) R1)) = Some o) by (unfold R1; cbn [smap set]; rewrite smap_updop; cbn [smap set]; apply alookup_ainsert).
     rewrite <- (drop_entry_found _ _ close_chan (updop o (fill_reply None) R1) o Ea).
     apply acctx_rm_s; [exact X3|apply closes_close_chan].
